@@ -63,10 +63,21 @@ def _bounded_task(args):
                     bound="?")
 
 
+_BASELINE = {}
+
+
 def _vc_task(args):
     modname, task = args
     importlib.import_module(modname)
-    from pyvc import contract
+    from pyvc import contract, models
+    # contracts install their own constructor / attribute models in setup(): restore the import-time state before every task so that a
+    # pool worker that has verified one function does not carry its models into the next one
+    if not _BASELINE:
+        _BASELINE.update(ctor=dict(models.CONSTRUCTORS), native=list(models.NATIVE_ATTRS))
+    else:
+        models.CONSTRUCTORS.clear()
+        models.CONSTRUCTORS.update(_BASELINE["ctor"])
+        models.NATIVE_ATTRS[:] = _BASELINE["native"]
     return contract.run_task(task)
 
 
